@@ -11,6 +11,7 @@ from typing import Dict, List, Optional
 from .loader import FuncInfo, src_of
 from .poly import RF, PolyError
 from .values import *  # noqa: F401,F403
+from .loader import AnalysisError
 from .interp import Interp
 
 N_ATOM = ("n",)
@@ -467,6 +468,18 @@ class Models:
         return self.st.norm(RF.atom(("rho", self.st.tfind(tid))))
 
     # field summaries -----------------------------------------------------
+    def conv_attr(self):
+        """Name of the class attribute holding a type's registered converters (read off register_converter)."""
+        nm = getattr(self.prog, "_conv_attr", False)
+        if nm is False:
+            from .anchors import converter_registry_attr
+            try:
+                nm = converter_registry_attr(self.prog)
+            except AnalysisError:
+                nm = None
+            self.prog._conv_attr = nm
+        return nm
+
     def unit_equiv(self, u: UnitV, node) -> V:
         """Summary of what _make_unit/_make_ref_unit store in Unit._equiv (rule R01.3)."""
         st = self.st
@@ -568,7 +581,9 @@ class Models:
                 return NONE
             if attr == "__name__":
                 return StrV(None, "clsname")
-            if attr == "_converters":
+            if attr == self.conv_attr() and not getattr(self.st, "concrete_registries", False):
+                # (scenarios that build a concrete registry through the public API start from what the metaclass
+                # assigns when the class is created - derived below)
                 lv = ListV(None, tag=f"converters({self.st.tfind(obj.tid)})", opaque_elem=ConvV())
                 lv.owner = obj
                 return lv
